@@ -4,7 +4,19 @@
 patch="$1"; shift
 wt=/tmp/mutcheck-$$
 git -C /repo worktree add --detach "$wt" HEAD -q || exit 2
-if ! git -C "$wt" apply "$patch"; then echo "PATCH DOES NOT APPLY"; git -C /repo worktree remove --force "$wt"; exit 2; fi
+# a seeded change was written against the tree of its day; later fix: commits may have moved its context. A sibling
+# patch.rebased.diff (same change ported by hand) takes precedence; else exact apply, 3-way, then fuzzy patch(1).
+reb="$(dirname "$patch")/patch.rebased.diff"
+[ -f "$reb" ] && patch="$reb"
+if ! git -C "$wt" apply "$patch" 2>/dev/null; then
+  if ! git -C "$wt" apply --3way "$patch" 2>/dev/null; then
+    git -C "$wt" checkout -q -- . 2>/dev/null
+    if ! (cd "$wt" && patch -p1 -F3 -s --no-backup-if-mismatch < "$patch" >/dev/null 2>&1); then
+      echo "PATCH DOES NOT APPLY"; git -C /repo worktree remove --force "$wt"; exit 2
+    fi
+  fi
+  (cd "$wt" && . /verif/tools/goenv.sh && go build ./... >/dev/null 2>&1) || { echo "PATCH DOES NOT APPLY (applied with fuzz but does not build)"; git -C /repo worktree remove --force "$wt"; exit 2; }
+fi
 cd /verif
 for p in "$@"; do
   out=$(VERIF_REPO="$wt" VERIF_SEED="${VERIF_SEED:-1}" ./check "$p" --tier "${VERIF_TIER:-quick}" 2>&1)
